@@ -538,10 +538,21 @@ def relation_cases(ctx, items, perms_per, sub=None, fixed=None):
                     dend = None
                     tgt.count('hierarchy-base-raises:' + type(e).__name__)
         gdesc = {'n': n, 'dense': a.toarray().tolist()}
-        for perm in perms:
+        stor = []
+        for pi, perm in enumerate(perms):
+            # the renumbered matrix in canonical storage, or as scipy's own indexing A[q][:, q] returns it (column indices
+            # not sorted inside the rows): a replay tries both
+            stor += [(perm, s_) for s_ in (('sorted', 'as-indexed') if fixed is not None else
+                                           (('as-indexed',) if pi % 2 == 1 else ('sorted',)))]
+        for perm, storage in stor:
             if list(perm) == list(range(n)):
                 continue
-            b = graphs.permute_csr(a, perm)
+            if storage == 'sorted':
+                b = graphs.permute_csr(a, perm)
+            else:
+                q = np.argsort(np.asarray(perm))
+                b = sparse.csr_matrix(a)[q][:, q]
+                tgt.count('relation-storage:as-indexed' + ('' if b.has_sorted_indices else ':unsorted'))
             aux_p = _perm_aux(aux, perm)
             with warnings.catch_warnings():
                 warnings.simplefilter('ignore')
@@ -549,8 +560,9 @@ def relation_cases(ctx, items, perms_per, sub=None, fixed=None):
                     if name not in base:
                         continue
                     sig = {'entry': name, 'relation': 'relabel'}
-                    desc = {'entry': name, 'graph': gdesc, 'perm': list(perm), 'aux': {k: (v.tolist() if hasattr(v, 'tolist') else v) for k, v in aux.items()}}
-                    key = (name, n, tuple(a.toarray().ravel().tolist()), perm)
+                    desc = {'entry': name, 'graph': gdesc, 'perm': list(perm), 'storage': storage,
+                            'aux': {k: (v.tolist() if hasattr(v, 'tolist') else v) for k, v in aux.items()}}
+                    key = (name, n, tuple(a.toarray().ravel().tolist()), perm, storage)
                     try:
                         out = f(b, aux_p)
                     except Exception as e:  # noqa
